@@ -1145,12 +1145,14 @@ func (vm *VM) xOpCallCompiled(cfunc *CompiledFunction, numArgs, flags int) error
 		}
 	}
 
-	frame := &(vm.frames[vm.frameIndex])
-	vm.frameIndex++
-
-	if vm.frameIndex > frameSize-1 {
+	// check the frame limit before the index moves: a failed call must leave
+	// the VM in the caller's frame (the error may be caught there)
+	if vm.frameIndex+1 > frameSize-1 {
 		return ErrStackOverflow
 	}
+
+	frame := &(vm.frames[vm.frameIndex])
+	vm.frameIndex++
 
 	frame.fn = cfunc
 	frame.freeVars = cfunc.Free
